@@ -737,12 +737,15 @@ func (ar *asyncRunner) start(nArgs int) {
 	ar.promiseCap = r.newPromiseCapability(r.getPromise())
 	sp := r.vm.sp
 	ar.gen.enter()
+	entered := true
+	defer ar.gen.unwindOnPanic(&entered)
 	ar.vmCall(r.vm, nArgs)
 	res, resType, ex := ar.gen.step()
 	ar.step(res, resType == resultNormal, ex)
 	if ex != nil {
 		r.vm.sp = sp - nArgs - 2
 	}
+	entered = false
 	r.vm.popTryFrame()
 	r.vm.popCtx()
 }
@@ -764,6 +767,19 @@ func (g *generator) enter() {
 	g.vm.pushTryFrame(tryPanicMarker, -1)
 	g.vm.prg, g.vm.sb, g.vm.pc = nil, -1, -2 // so that vm.run() halts after ret
 	g.storeLengths()
+}
+
+// unwindOnPanic must be deferred right after enter() / enterNext(). If a panic (an uncatchable exception such as an
+// interrupt or a stack overflow, or a foreign Go panic) propagates while *entered is still set, handleThrow() has
+// unwound the try stack down to the frame pushed by enter() / enterNext(); nobody else would pop that frame and
+// every outer handler would then stop at it instead of at its own frame.
+func (g *generator) unwindOnPanic(entered *bool) {
+	if *entered {
+		if x := recover(); x != nil {
+			g.vm.popTryFrame()
+			panic(x)
+		}
+	}
 }
 
 func (g *generator) enterNextFinallyFrame() (canContinue bool) {
@@ -870,10 +886,13 @@ func (g *generator) enterNext() {
 
 func (g *generator) next(v Value) (Value, resultType, *Exception) {
 	g.enterNext()
+	entered := true
+	defer g.unwindOnPanic(&entered)
 	if v != nil {
 		g.vm.push(v)
 	}
 	res, done, ex := g.step()
+	entered = false
 	g.vm.popTryFrame()
 	g.vm.popCtx()
 	return res, done, ex
@@ -881,14 +900,18 @@ func (g *generator) next(v Value) (Value, resultType, *Exception) {
 
 func (g *generator) nextThrow(v interface{}) (Value, resultType, *Exception) {
 	g.enterNext()
+	entered := true
+	defer g.unwindOnPanic(&entered)
 	ex := g.vm.handleThrow(v)
 	if ex != nil {
+		entered = false
 		g.vm.popTryFrame()
 		g.vm.popCtx()
 		return nil, resultNormal, ex
 	}
 
 	res, resType, ex := g.step()
+	entered = false
 	g.vm.popTryFrame()
 	g.vm.popCtx()
 	return res, resType, ex
@@ -900,10 +923,13 @@ func (g *generatorObject) init(vmCall func(*vm, int), nArgs int) {
 	g.gen.vm = vm
 
 	g.gen.enter()
+	entered := true
+	defer g.gen.unwindOnPanic(&entered)
 	vmCall(vm, nArgs)
 
 	_, _, ex := g.gen.step()
 
+	entered = false
 	vm.popTryFrame()
 	if ex != nil {
 		panic(ex)
